@@ -55,6 +55,12 @@ def _install_audit():
 # Generation
 
 
+STD_SUBMODULES = {"json": ["decoder", "encoder"], "os": ["path"], "logging": ["handlers"], "collections": ["abc"], "importlib": ["util", "machinery"], "email": ["utils"], "xml": ["dom"]}
+for _pkg, _subs in STD_SUBMODULES.items():
+    for _sub in _subs:
+        __import__(f"{_pkg}.{_sub}")  # make sure the dotted names are in sys.modules, as in any long-lived process
+
+
 def _gen_module(rng, name, cfg, others):
     m = {
         "sentinel": True,
@@ -79,6 +85,12 @@ def generate(rng, opts):
     names = [PK] + [f"{PK}.{m}" for m in rng.sample(["a", "b", "c", "json", "types"], rng.choice([0, 1, 2, 3]))]
     if rng.random() < 0.4:
         names += [f"{PK}.sub", f"{PK}.sub.d"]
+    std = None
+    if rng.random() < 0.25:
+        # a sub-package named like a standard-library package, holding compiled modules named like that package's own
+        # sub-modules (pkg/json/decoder.so, pkg/os/path.so): `json.decoder`, `os.path`... are in sys.modules already
+        std = rng.choice(sorted(STD_SUBMODULES))
+        names = [n for n in names if n != f"{PK}.{std}"] + [f"{PK}.{std}", f"{PK}.{std}.m"]
     modules = {}
     for n in names:
         modules[n] = _gen_module(rng, n, cfg, [o for o in names if o != n])
@@ -97,6 +109,9 @@ def generate(rng, opts):
             # bare names that collide with modules the interpreter has already imported are legal sub-module names
             name = rng.choice(["z" + form, "z" + form, "math", "types", "_json", "abc", "sys", "os"])
             compiled.append({"parent": rng.choice([PK, PK, EXT, EXT2] + ([f"{PK}.sub"] if f"{PK}.sub" in modules else [])), "name": name, "form": form})
+    if std is not None:
+        for child in rng.sample(STD_SUBMODULES[std], rng.choice([1, len(STD_SUBMODULES[std])])):
+            compiled.append({"parent": f"{PK}.{std}", "name": child, "form": rng.choice(["so", "abi3", "pyd", "pyc"])})
     stubs = [n for n in names if cfg["stubs"] and rng.random() < 0.5]
     ops = []
     for _ in range(rng.choice([1, 2, 2, 3, 4])):
@@ -529,7 +544,7 @@ def sample_view(plan):
 class _Prop:
     ID = "C15"
     TIERS = {
-        "quick": {"runs": 4_500, "wall": 80, "det_n": 120, "shrink_s": 40},
+        "quick": {"runs": 4_000, "wall": 80, "det_n": 120, "shrink_s": 40},
         "thorough": {"runs": 300_000, "wall": 1100, "det_n": 800, "shrink_s": 120},
     }
     OPTS = {"chunk": 80, "chunk_wall": 300}
